@@ -17,7 +17,15 @@ func init() {
 			"Excluded as in the property: cyclic graphs, panicking callbacks, reuse of a consumed validator.",
 		Assume:  []string{"documented preconditions of package reflect", "receivers of validator methods are non-nil and not yet released"},
 		Trusted: []string{"go/types", "go/ssa", "reflect precondition table in rulefn.go/walkenv.go"},
-		Run:     func(c *Ctx) { runC13(c); runExportPred(c, "C13-EXPORT"); runToStrCases(c, "C13-TOSTR"); runC04Strip(c, "C13-STRIP"); runC13IfaceCompare(c); runFieldIdentity(c, "C13-FIELDIDX"); base(c, "STATE", "ALIAS") },
+		Run: func(c *Ctx) {
+			runC13(c)
+			runExportPred(c, "C13-EXPORT")
+			runToStrCases(c, "C13-TOSTR")
+			runC04Strip(c, "C13-STRIP")
+			runC13IfaceCompare(c)
+			runFieldIdentity(c, "C13-FIELDIDX")
+			base(c, "STATE", "ALIAS")
+		},
 	})
 }
 
